@@ -302,3 +302,8 @@ Proof.
   destruct (alookup n (L1 r)); [discriminate|]. destruct (alookup n (L2 r)); [discriminate|].
   destruct (alookup n (L3 r)); [discriminate|]. reflexivity.
 Qed.
+
+Lemma FactoryBasics_get_lookup_false r n : get_lookup r n false =
+  match (match alookup n (L1 r) with Some v => Some v | None => alookup n (L2 r) end) with
+  | Some v => Hit v | None => Miss end.
+Proof. unfold get_lookup. destruct (alookup n (L1 r)); [reflexivity|]. destruct (alookup n (L2 r)); reflexivity. Qed.
